@@ -25,6 +25,12 @@ round 3: every public entry point that returns a p-box is in both streams with s
          operand) is snapshotted and re-read after later calls (every 50 histories, at the end, inside the moment workers),
          30 histories are evaluated twice, and a fixed sequence repeats calls whose arguments differ only in the masses /
          in how the same numbers are bound.
+round 4/5: must-raise / must-return / raise-or-well-formed edge stream (invalid parameter corners, empty impositions, domain
+         edges, falsy arguments, copied / pickled operands); every stream also at tiny and huge magnitudes (power-of-two scaled
+         integer boxes in constructor cases and whole histories, 1e-170 … 1e150 in the moment stream); `grid_stream`: every
+         public caller of interpolate_p / bound_steps_check (stacking, stochastic_mixture, DempsterShafer.to_pbox, ECDF,
+         KS_bounds, pbox_from_ecdf_bundle, Staircase) with steps-3 … steps+2 points, ties, duplicates, unequal masses, compared
+         with independent references (`ref_bundle`, `ref_normalise`).
 """
 from __future__ import annotations
 import math, operator, json, os, itertools, time
@@ -102,6 +108,9 @@ def build_leaf(spec):
     if name == "ECDF":                 # pba.ECDF(sample): itself a Staircase
         data = a[0]
         return pba.ECDF(list(data) if a[1] == "list" else np.array(data, dtype=(int if a[1] == "int" else float)))
+    if name == "rawscaled":            # integer step box times a power of two (exact at every magnitude)
+        sc = 2.0 ** a[2]
+        return Staircase(left=np.array(unrle(a[0]), dtype=float) * sc, right=np.array(unrle(a[1]), dtype=float) * sc)
     if name == "rawint":               # integer-dtype bounds (np.array of ints / Python lists of ints)
         l, r = [int(x) for x in unrle(a[0])], [int(x) for x in unrle(a[1])]
         return Staircase(left=l, right=r) if a[2] == "list" else Staircase(left=np.array(l), right=np.array(r))
@@ -131,6 +140,9 @@ def build_leaf(spec):
 
 def r2(rng, a, b):
     return round(rng.uniform(a, b), 3)
+
+
+SCALE_EXPONENTS = (-40, -70, 36)
 
 
 def leaf_specs(rng, n_lib, n_int):
@@ -213,6 +225,10 @@ def leaf_specs(rng, n_lib, n_int):
     for i in range(n_int):
         l, r = pbx.int_box200(rng, [None, "pos", "neg", "str"][i % 4])
         S.append(["raw", [rle([int(x) for x in l]), rle([int(x) for x in r])]])
+    for k in SCALE_EXPONENTS:                  # tiny and huge magnitudes, exactly representable
+        for i in range(4):
+            l, r = pbx.int_box200(rng, [None, "pos", "neg", "str"][i % 4])
+            S.append(["rawscaled", [rle([int(x) for x in l]), rle([int(x) for x in r]), k]])
     for i in range(max(4, n_int // 3)):        # the same kind of box kept as integer arrays / lists of Python ints
         l, r = pbx.int_box200(rng, [None, "pos", "neg", "str"][i % 4])
         S.append(["rawint", [rle([int(x) for x in l]), rle([int(x) for x in r]), "list" if i % 2 else "array"]])
@@ -331,7 +347,7 @@ class Hist:
     def __init__(self, pool):
         self.pool = pool
         self.values = []      # (path, kind, value)  every p-box the real code returned
-        self.scale = 1.0
+        self.scale = 0.0      # largest magnitude met along the way (the tolerance of the tie is relative to it)
         self.nodes = 0
         self.nonfinite = False
         self.exact = True
@@ -407,8 +423,22 @@ class Hist:
             if op == "div":
                 self.touches_zero(vals[1])
             return OPS[op](vals[0], vals[1]) if dep == "b" else getattr(vals[0], op)(vals[1], dependency=dep)
-        if k in ("num", "rnum") and spec[1] in ("add", "sub") and abs(spec[2]) >= 1e15:
-            self.absorbed = True          # binary64 absorbs the box into the constant; the exact model does not
+        # sums of operands whose magnitudes are more than 2^45 apart: binary64 absorbs the small one, the exact model does not
+        def mag(v_):
+            try:
+                return float(max(np.max(np.abs(np.asarray(v_.left, float))), np.max(np.abs(np.asarray(v_.right, float)))))
+            except Exception:  # noqa
+                return 0.0
+        if k in ("num", "rnum") and spec[1] in ("add", "sub"):
+            a_, b_ = mag(vals[0]), abs(float(spec[2]))
+            if a_ > 0 and b_ > 0 and max(a_, b_) / min(a_, b_) > 2.0 ** 45:
+                self.absorbed = True
+        if k == "bin" and spec[1] in ("add", "sub"):
+            a_, b_ = mag(vals[0]), mag(vals[1])
+            if a_ > 0 and b_ > 0 and max(a_, b_) / min(a_, b_) > 2.0 ** 45:
+                self.absorbed = True
+        if k == "rpow":
+            return spec[1] ** vals[0]
         if k == "num":
             return OPS[spec[1]](vals[0], spec[2])
         if k == "rnum":
@@ -482,7 +512,7 @@ def gen_spec(rng, depth, npool, budget):
         budget[0] -= 1
         return ["leaf", rng.randrange(npool)]
     kind = rng.choice(["bin"] * 9 + ["num", "num", "rnum", "rnum", "neg", "neg", "recip", "un", "un", "env", "imp",
-                                    "pown", "powp", "minmax", "trig", "cond", "dssrt", "stackrt", "ufunc"])
+                                    "pown", "powp", "minmax", "trig", "cond", "dssrt", "stackrt", "ufunc", "rpow"])
     sub = lambda: gen_spec(rng, depth - 1 if rng.random() < 0.75 else rng.randrange(depth), npool, budget)
     C = [-3, -1, -0.5, 0.5, 2, 7, 0, 1, 10.25, -2]
     if rng.random() < 0.15:      # constants below machine epsilon and above 1e15
@@ -506,6 +536,8 @@ def gen_spec(rng, depth, npool, budget):
     if kind in ("env", "imp"):
         a, b = pair()
         return [kind, a, b]
+    if kind == "rpow":               # number ** p-box: a decreasing map for a base below one
+        return ["rpow", rng.choice([0.5, 2, 0.1, 1, 3.5]), sub()]
     if kind == "pown":
         return ["pown", rng.choice([-2, -1, 0, 1, 2, 3, 0.5]), sub()]
     if kind == "powp":
@@ -528,7 +560,7 @@ def spec_depth(s):
     return 0 if s[0] == "leaf" else 1 + max([spec_depth(x) for x in subs] + [0])
 
 
-ALLK = MODELLED | {"pown", "powp", "minmax", "trig", "cond", "dssrt", "stackrt", "ufunc"}
+ALLK = MODELLED | {"pown", "powp", "minmax", "trig", "cond", "dssrt", "stackrt", "ufunc", "rpow"}
 
 
 def spec_kinds(s, acc):
@@ -616,7 +648,15 @@ def ctor_cases(ctx):
     cases.append(("ctor-empty", False, [], []))
     cases.append(("ctor-empty", True, [], []))
     cases.append(("ctor-empty", False, [], [1.0]))
-    return cases
+    # the same cases at tiny and huge magnitudes (a scaling changes no order relation; powers of two keep every value exact)
+    SCALES = [2.0 ** -30, 2.0 ** -50, 2.0 ** -70, 1e-19, 1e-170, 2.0 ** 36, 1e150]
+    out = []
+    for j, (stream, lists, l, r) in enumerate(cases):
+        out.append((stream, lists, l, r))
+        if stream != "ctor-empty" and (j % 2 == 0 or stream in ("ctor-unsorted", "ctor-crossing", "ctor-nan")):
+            sc = SCALES[j % len(SCALES)] if rng.random() < 0.7 else rng.choice(SCALES)
+            out.append((stream, lists, [x * sc for x in l], [x * sc for x in r]))
+    return out
 
 
 def ctor_impl(lists, l, r):
@@ -781,6 +821,9 @@ def moment_specs(ctx):
     # --- extreme constants; precise boxes far from the origin ---
     for cname, cst in (("1e-20", 1e-20), ("2^-60", 2.0 ** -60), ("1e18", 1e18)):
         S.append(("scale-" + cname, ["num", "mul", cst, L(nrm())]))
+    S.append(("scale-1e-170", ["num", "mul", 1e-170, L(nrm())]))
+    S.append(("scale-1e150", ["num", "mul", 1e150, L(u())]))
+    S.append(("scale-2^-70-int", L(["rawscaled", [[[0, 100], [1, 100]], [[1, 100], [3, 100]], -70]])))
     S.append(("offset-1e15", ["num", "add", 1e15, L(u())]))
     S.append(("precise-uniform+3e8", ["num", "add", 3e8, L(["uniform", [0, 3]])]))
     S.append(("precise-normal-1e8", ["num", "sub", 1e8, L(["normal", [0, 1]])]))
@@ -933,7 +976,7 @@ def run(ctx: core.Check):
                          f"Staircase on well-formed bounds of length {len(l)} raised {impl[1]}")
             else:
                 for side, src, got in (("left", l, impl[1]), ("right", r, impl[2])):
-                    okk = len(got) == n and got[0] == src[0] and got[-1] == src[-1] and set(got) <= set(src)
+                    okk = len(got) == n and got[0] == src[0] and got[-1] == src[-1] and set(got) <= set(src) and got == ref_normalise(src, n)
                     if not okk:
                         ctx.fail({"node": "ctor", "stream": stream, "lists": lists, "check": "length-normalisation-values"}, case,
                                  f"{side} bound of length {len(src)} normalised to {len(got)} values; ends {got[:1]}..{got[-1:]} vs {src[:1]}..{src[-1:]}, "
@@ -968,7 +1011,7 @@ def run(ctx: core.Check):
         l = [float(x) for x in v.left]; r = [float(x) for x in v.right]
         if not all(math.isfinite(x) for x in l + r):
             continue
-        pool.append({"spec": s, "value": v, "wire": f"L 0 {ql(l)} {ql(r)}", "int": s[0] in ("raw", "rawint"), "snap": snapshot_safe(v)})
+        pool.append({"spec": s, "value": v, "wire": f"L 0 {ql(l)} {ql(r)}", "int": s[0] in ("raw", "rawint"), "scale": s[1][2] if s[0] == "rawscaled" else None, "snap": snapshot_safe(v)})
     int_idx = [i for i, p in enumerate(pool) if p["int"]]
     def evaluate(sp):
         h = Hist(pool)
@@ -985,6 +1028,14 @@ def run(ctx: core.Check):
         if s[0] == "leaf":
             return ["leaf", rng.choice(int_idx)]
         return [to_int(x) if (isinstance(x, list) and x and isinstance(x[0], str) and x[0] in ALLK) else x for x in s]
+
+    def to_scaled(s, grp, sc):
+        if s[0] == "leaf":
+            return ["leaf", rng.choice(grp)]
+        out = [to_scaled(x, grp, sc) if (isinstance(x, list) and x and isinstance(x[0], str) and x[0] in ALLK) else x for x in s]
+        if out[0] in ("num", "rnum") and out[1] in ("add", "sub"):
+            out[2] = out[2] * sc          # additive constants live at the same magnitude
+        return out
 
     runs = []
     keep = 400      # only the latest results stay alive in long runs
@@ -1016,6 +1067,11 @@ def run(ctx: core.Check):
             sp = gen_spec(rng, depth, len(pool), [rng.choice([2, 3, 4, 6])])
             if i % 5 == 0 and int_idx:      # exact sub-stream: integer boxes only
                 sp = to_int(sp)
+            elif i % 7 == 3:                # the whole history at a tiny / huge magnitude (power-of-two scaling)
+                k_ = SCALE_EXPONENTS[(i // 7) % len(SCALE_EXPONENTS)]
+                grp = [j_ for j_, pl in enumerate(pool) if pl["scale"] == k_]
+                if grp:
+                    sp = to_scaled(sp, grp, 2.0 ** k_)
             res = evaluate(sp)
             # histories that raise are kept only now and then (they end at the first exception)
             if res[2][0] == "ok" or rng.random() < 0.3:
@@ -1087,6 +1143,7 @@ def run(ctx: core.Check):
     # between, the same numbers bound differently; earlier results must not change and equal calls must agree ------
     sequence_stream(ctx)
     edge_stream(ctx)
+    grid_stream(ctx)
 
     # ---- (c) moment stream results ---------------------------------------------------------------
     mres = masync.get(timeout=3000)
@@ -1102,6 +1159,107 @@ def run(ctx: core.Check):
         for chk, detail in res["problems"]:
             ctx.fail({**feat, "check": chk}, case, f"real moment code on {res['name']}: {chk} — {detail}")
     ctx.extra_cov["moment_stream"] = [{k: r.get(k) for k in ("name", "method", "support", "mean", "var", "secs", "err")} for r in mres][:40]
+
+
+def ref_normalise(src, n):
+    """what `bound_steps_check` owes, written down independently: a longer bound keeps the entries
+    floor(k (m-1) / (n-1)); a shorter one takes, at level k/(n-1) of the way, the NEXT given value ceil(k (m-1) / (n-1))"""
+    m = len(src)
+    if m == n or n < 2:
+        return list(src)
+    if m > n:
+        return [src[(k * (m - 1)) // (n - 1)] for k in range(n)]
+    return [src[-((-k * (m - 1)) // (n - 1))] for k in range(n)]
+
+
+def ref_bundle(q, p, levels):
+    """`Staircase.from_CDFbundle` written down independently: add level 0 / 1 when missing, then at every level take the
+    quantile of the first point whose probability reaches it ('next'); returns None at a level that coincides with a given
+    probability up to rounding (either neighbour is acceptable there)"""
+    q, p = [float(x) for x in q], [float(x) for x in p]
+    if p[0] != 0:
+        p, q = [0.0] + p, [q[0]] + q
+    if p[-1] != 1:
+        p, q = p + [1.0], q + [q[-1]]
+    order = sorted(range(len(p)), key=lambda i: p[i])
+    ps, qs = [p[i] for i in order], [q[i] for i in order]
+    out = []
+    for x in levels:
+        if x < ps[0]:
+            out.append(q[0]); continue
+        if x > ps[-1]:
+            out.append(q[-1]); continue
+        j = next(i for i, v in enumerate(ps) if v >= x)
+        out.append(None if abs(ps[j] - x) < 1e-13 else qs[j])
+    return out
+
+
+def grid_stream(ctx):
+    """every public caller of `interpolate_p` / `bound_steps_check` with data sizes around the number of steps
+    (steps-3 … steps+2 points) and with ties, duplicates, unsorted and nested focal elements, unequal masses; the result is
+    compared with the independent references above"""
+    from pyuncertainnumber import pba
+    from pyuncertainnumber.pba.pbox_abc import Staircase
+    from pyuncertainnumber.pba.params import Params
+    from pyuncertainnumber.pba.ecdf import eCDF_bundle
+    rng = ctx.rng
+    n = int(Params.steps)
+    levels = [float(x) for x in Params.p_values]
+
+    def compare(name, size, box, refL, refR):
+        ctx.count(("grid", name, size), True, "grid")
+        report_problems(ctx, wf_problems(box), {"node": "grid", "stream": "grid", "name": name, "size": size}, {"call": name, "size": size}, f"{name} with {size} points")
+        for side, got, ref in (("left", box.left, refL), ("right", box.right, refR)):
+            got = [float(x) for x in got]
+            bad = [k for k, (g, w) in enumerate(zip(got, ref)) if w is not None and g != w]
+            if len(got) != len(ref) or bad:
+                k = bad[0] if bad else -1
+                ctx.fail({"node": "grid", "stream": "grid", "name": name, "size": size, "check": "grid-values"},
+                         {"call": name, "size": size, "side": side, "step": k, "got": got[k] if bad else len(got), "expected": ref[k] if bad else len(ref),
+                          "n_wrong": len(bad)},
+                         f"{name} with {size} points: {side} bound differs from the 'next' value on the probability grid at {len(bad)} steps "
+                         f"(first at step {k}: {got[k] if bad else None!r}, expected {ref[k] if bad else None!r})")
+                return
+
+    sizes = sorted(set([1, 2, 3, n - 3, n - 2, n - 1, n, n + 1, n + 2, rng.randint(4, n - 4), rng.randint(n + 3, 3 * n)]))
+    for m in sizes:
+        try:
+            # focal elements: ties, duplicates, unsorted, nested
+            los = [round(rng.uniform(-3, 3), 1) for _ in range(m)]
+            ivs = [[a, a + round(rng.uniform(0, 2), 1)] for a in los]
+            c1, c2 = pba.stacking(ivs, return_type="cdf")
+            refL, refR = ref_bundle(c1.quantiles, c1.probabilities, levels), ref_bundle(c2.quantiles, c2.probabilities, levels)
+            compare("stacking(equal masses)", m, pba.stacking(ivs), refL, refR)
+            compare("stochastic_mixture(intervals)", m, pba.stochastic_mixture(*ivs), refL, refR)
+            w = [rng.randint(1, 9) for _ in range(m)]
+            w = [x / sum(w) for x in w]
+            c1, c2 = pba.stacking(ivs, weights=w, return_type="cdf")
+            refL, refR = ref_bundle(c1.quantiles, c1.probabilities, levels), ref_bundle(c2.quantiles, c2.probabilities, levels)
+            compare("stacking(unequal masses)", m, pba.stacking(ivs, weights=w), refL, refR)
+            compare("DempsterShafer.to_pbox", m, pba.DSS(ivs, w).to_pbox(), refL, refR)
+            # a sample: ECDF (bound_steps_check of n+1 values) and the Kolmogorov-Smirnov band (two bundles of n+2 points)
+            data = [round(rng.uniform(0, 9), 2) for _ in range(m)]
+            srt = sorted(data)
+            refE = ref_normalise([srt[0]] + srt, n)
+            compare("ECDF(sample)", m, pba.ECDF(np.array(data)), refE, refE)
+            if m >= 2:
+                bl, br = pba.KS_bounds(np.array(data), alpha=0.05, display=False, output_type="bounds")
+                refL = ref_bundle(list(bl.quantiles), list(bl.probabilities), levels)
+                refR = ref_bundle(list(br.quantiles), list(br.probabilities), levels)
+                compare("KS_bounds(output_type='pbox')", m, pba.KS_bounds(np.array(data), alpha=0.05, display=False, output_type="pbox"), refL, refR)
+            # two bundles given directly, with and without the end levels
+            ql_ = sorted(round(rng.uniform(0, 5), 2) for _ in range(m))
+            qr_ = [x + 1.5 for x in ql_]
+            for nm, pr in (("0..1", np.linspace(0, 1, m)), ("inner", np.linspace(0.01, 0.99, m))):
+                if m < 2 and nm == "0..1":
+                    continue
+                pr = [float(x) for x in pr]
+                refL, refR = ref_bundle(ql_, pr, levels), ref_bundle(qr_, pr, levels)
+                box = pba.pbox_from_ecdf_bundle(eCDF_bundle(np.array(ql_), np.array(pr)), eCDF_bundle(np.array(qr_), np.array(pr)))
+                compare(f"pbox_from_ecdf_bundle({nm} levels)", m, box, refL, refR)
+        except BaseException as e:  # noqa
+            ctx.fail({"node": "grid", "stream": "grid", "size": m, "check": "raises"}, {"size": m, "error": repr(e)[:120]},
+                     f"an entry point of the probability-grid machinery raised on {m} well-formed points: {type(e).__name__}: {str(e)[:80]}")
 
 
 def edge_stream(ctx):
@@ -1195,8 +1353,62 @@ def edge_stream(ctx):
                  {"call": name, "group": group, "returned": desc},
                  f"{name}: no p-box can be produced from this input, yet the call returned a {desc} instead of raising")
 
+    # at nano / pico magnitudes an unsorted or crossing bound must still be rejected: the call raises or returns a
+    # well-formed box, at every scale
+    def desc(sc):
+        return Staircase(left=np.linspace(4, 1, 200) * sc, right=np.linspace(5, 4.5, 200) * sc)
+    EITHER = []
+    for sc in (1e-10, 1e-12, 2.0 ** -60, 1e-170, 1.0, 1e150):
+        EITHER += [
+            (f"0.5 ** uniform(scale {sc:g})", lambda sc=sc: 0.5 ** pba.uniform([1 * sc, 5 * sc], [2 * sc, 6 * sc])),
+            (f"uniform nested the wrong way (scale {sc:g})", lambda sc=sc: pba.uniform([1 * sc, 4 * sc], [2 * sc, 3 * sc])),
+            (f"Staircase descending bounds (scale {sc:g})", lambda sc=sc: desc(sc)),
+            (f"crossing at some steps (scale {sc:g})", lambda sc=sc: Staircase(left=np.linspace(0, 4, 200) * sc, right=np.linspace(1, 3, 200) * sc)),
+        ]
+    for name, f in EITHER:
+        ctx.count(("raise-or-wf", name), True, "raise-or-wellformed")
+        try:
+            v = f()
+        except BaseException as e:  # noqa
+            ctx.bump("raise-or-wf:raised")
+            continue
+        ctx.bump("raise-or-wf:returned")
+        report_problems(ctx, wf_problems(v), {"node": "edge", "stream": "raise-or-wellformed", "name": name}, {"call": name}, name)
+
+    # operands that were copied / pickled before use give the same value; so do results fed back as operands
+    import copy, pickle
+    qb = pba.uniform([1, 2], [3, 4])
+    for name, f in (("add/f", lambda a, b: a.add(b, dependency="f")), ("mul/p", lambda a, b: a.mul(b, dependency="p")),
+                    ("sub/i", lambda a, b: a.sub(b, dependency="i")), ("env", lambda a, b: pba.envelope(a, b)),
+                    ("neg+num", lambda a, b: -a * 2 + 1), ("div/o", lambda a, b: a.div(b, dependency="o"))):
+        ctx.count(("interaction", name), True, "interaction")
+        try:
+            base = f(p, qb)
+            variants = {"copy.copy": f(copy.copy(p), copy.copy(qb)), "copy.deepcopy": f(copy.deepcopy(p), copy.deepcopy(qb)),
+                        "pickle": f(pickle.loads(pickle.dumps(p)), pickle.loads(pickle.dumps(qb))),
+                        "rebuilt from read-outs": f(Staircase(left=p.left.copy(), right=p.right.copy()), Staircase(left=list(qb.left), right=list(qb.right)))}
+        except BaseException as e:  # noqa
+            ctx.fail({"node": "edge", "stream": "interaction", "name": name, "check": "raises"}, {"op": name},
+                     f"{name} on copied / pickled operands raised {type(e).__name__}: {str(e)[:80]}")
+            continue
+        for how, v in variants.items():
+            report_problems(ctx, wf_problems(v), {"node": "edge", "stream": "interaction", "name": name, "how": how}, {"op": name, "how": how}, f"{name} on {how} operands")
+            if not (np.array_equal(v.left, base.left) and np.array_equal(v.right, base.right)):
+                ctx.fail({"node": "edge", "stream": "interaction", "name": name, "how": how, "check": "copy-differs"}, {"op": name, "how": how},
+                         f"{name}: operands passed through {how} give different bounds than the originals")
+
     big = np.arange(4097.0)
     MUST_RETURN = [
+        ("falsy", "min_max(0,0)", lambda: pba.min_max(0, 0)),
+        ("falsy", "normal(0,[1,2])", lambda: pba.normal(0, [1, 2])),
+        ("falsy", "mean_std(0,1)", lambda: pba.mean_std(0, 1)),
+        ("falsy", "p * 0", lambda: p * 0),
+        ("falsy", "0.0 * p + 0", lambda: 0.0 * p + 0),
+        ("falsy", "p - (-0.0)", lambda: p - (-0.0)),
+        ("falsy", "p ** 0", lambda: p ** 0),
+        ("falsy", "I(0,0).to_pbox() + p", lambda: I(0, 0).to_pbox() + p),
+        ("falsy", "envelope(p, I(0,0))", lambda: pba.envelope(p, I(0, 0))),
+        ("falsy", "stacking weights None", lambda: pba.stacking([[0, 0], [0, 1]], weights=None)),
         ("param-valid-edge", "normal(5,[1e-12,s])", lambda: pba.normal(5, [1e-12, hiS])),
         ("param-valid-edge", "gamma([1e-3,2])", lambda: pba.gamma([1e-3, 2])),
         ("param-valid-edge", "exponential(scale=[1e-9,2])", lambda: pba.exponential(scale=[1e-9, 2])),
